@@ -84,11 +84,13 @@ def gen_source(rng, cfg):
             extra.append(rng.choice(["face_lonlat", "face_xyz"]))
         if rng.random() < 0.3:
             extra += ["edge_nodes", rng.choice(["edge_lonlat", "edge_xyz"])]
-        spec["dialect"] = {"lon360": rng.random() < 0.3, "extra": extra, "edge_flip": rng.random() < 0.5}
+        spec["dialect"] = {"lon360": rng.random() < 0.3, "extra": extra, "edge_flip": rng.random() < 0.5, "int_coords": rng.random() < 0.3}
+        if spec["dialect"]["int_coords"]:
+            spec["jitter"] = 0.0  # whole-degree meshes only stay whole without jitter
     elif r < 0.7:
         spec["prov"] = rng.choice(["vertices", "vertices_xyz"])
     else:
-        spec["prov"] = "ugrid_mem"
+        spec["prov"] = rng.choice(["ugrid_mem", "ugrid_mem", "esmf_mem"])
         spec["dialect"] = {"lon360": rng.random() < 0.5, "start": rng.choice([0, 1])}
     return spec
 
@@ -459,6 +461,11 @@ class Trees(Profile):
             if r_nat is not None:
                 must = set(np.nonzero(du < r_nat - eps)[0].tolist())
                 may = set(np.nonzero(dl <= r_nat + eps)[0].tolist())
+                pspec = op["points"][pi]
+                if isinstance(pspec, dict) and coords == "nodes" and csys == "spherical" and metric == "haversine" and "node_lon" in W.source("g0").shipped and not W.source("g0").spec.get("dialect", {}).get("lon360"):
+                    # the query point is bit-identical to a stored node position: its distance is
+                    # exactly 0 <= r for every r >= 0 (the ball is closed) - not a tie
+                    must.add(pspec["elem"] % n)
                 gs = set(got.tolist())
                 if not must <= gs:
                     return out, [V(sig + "/radius-set", i, f"r={r} point={lo, la} in_radians={inrad}: missing elements {sorted(must - gs)[:8]} (brute force)")]
